@@ -515,6 +515,7 @@ fn run_inner(w: &mut World, s: &HistScenario) -> RunOut {
                 let pt = *passthrough || forced;
                 // pass-through: the plan is applied to the real file (what a real disk can do)
                 let mut pt_eff: Option<Vec<u8>> = None;
+                let mut pt_touched = false;
                 if pt {
                     let slot_file = match &w.scratch {
                         Some(dir) => format!("{dir}/{}", slot.trim_start_matches('/')),
@@ -523,6 +524,7 @@ fn run_inner(w: &mut World, s: &HistScenario) -> RunOut {
                     if let Some((b, _, _)) = &on_disk {
                         if plan.open_error.is_some() {
                             let _ = std::fs::remove_file(&slot_file);
+                            pt_touched = true;
                         } else {
                             let mut eff = b.clone();
                             if let Some(t) = plan.truncate_at {
@@ -541,6 +543,7 @@ fn run_inner(w: &mut World, s: &HistScenario) -> RunOut {
                             }
                             if eff != *b {
                                 let _ = std::fs::write(&slot_file, &eff);
+                                pt_touched = true;
                             }
                             pt_eff = Some(eff);
                         }
@@ -656,8 +659,9 @@ fn run_inner(w: &mut World, s: &HistScenario) -> RunOut {
                     None => {
                         // pass-through: the real file system decides; the harness wrote the bytes
                         w.count("passthrough_loads");
-                        // put the file back as the model has it
-                        if let (Some(dir), Some((b, _, _))) = (&w.scratch, &on_disk) {
+                        // put the file back as the model has it (only if the fault changed it: an
+                        // untouched file keeps its modification time)
+                        if let (Some(dir), Some((b, _, _)), true) = (&w.scratch, &on_disk, pt_touched) {
                             let slot_file = format!("{dir}/{}", slot.trim_start_matches('/'));
                             let _ = std::fs::write(&slot_file, b);
                         }
@@ -792,8 +796,18 @@ fn run_inner(w: &mut World, s: &HistScenario) -> RunOut {
 
         if prop == Prop::C12 {
             let parser_ref = parser;
+            let concurrent = st.concurrent;
+            if concurrent > 1 {
+                w.count("probe_concurrent_validate");
+            }
             let (p, outs) = callers.exec(st.obs_caller, move || {
                 let mut v = Vec::new();
+                if concurrent > 1 {
+                    // several threads validate the shared parser at once, before anybody else did
+                    if let Some(outs) = exec::observe_concurrently(&parser_ref, concurrent, policy, step_no * 1000 + 700) {
+                        v.extend(outs);
+                    }
+                }
                 for r in 0..observe_times {
                     policy.install(step_no * 1000 + 500 + r as u64);
                     v.push(exec::observe(&parser_ref));
